@@ -14,7 +14,8 @@ LEVEL = ("Static structural conditions for both Zarr backends: flush, finalize a
          "chunk is written as a subset of extent len of chunk chunk_idx; is_full is full_at == len (R4); the buffer bookkeeping is consistent: "
          "finish_chunk advances the chunk index by one and empties the buffer, reset rewinds it to zero, push adds one entry and finishes the chunk "
          "exactly at full_at, total_pushed = current_chunk * full_at + len, copy_as_chunk cannot modify the buffer (R5). Chunk-index arithmetic against "
-         "all sizes and the store contents after a crash are not decided.")
+         "all sizes and the store contents after a crash are not decided."
+         " Added: copy_as_chunk is a snapshot - no interior mutability in SampleBuffer, None only for an empty buffer (R5).")
 EXPLANATION = ("MIR loops over the buffer-map fields with the snapshot / reset call and the indexed array family on each side of the warm-up flag; sibling "
                "agreement with push_draw / push_param; symbolic evaluation (polynomials) of the subset start / shape expressions in HIR; field-writer inventory.")
 TRUSTED = ["rustc nightly MIR/HIR", "nutsfacts extractor", "rules/c15.py", "zarrs: store_chunk / store_chunk_subset / store_array_subset write what they are given",
